@@ -10,6 +10,12 @@ after the last `calc_csum`).
 -/
 namespace Resynth
 
+/-- `SocketAddrV4` -/
+structure Sock where
+  ip : Nat
+  port : Nat
+  deriving Repr, DecidableEq, Inhabited
+
 /-- `ip_hdr` -/
 structure IpHdr where
   ihlVersion : Nat := 0x45
